@@ -503,6 +503,7 @@ func worker(c *vf.Ctx, arg string) {
 	}
 	reruns := c.Pick(3, 6)
 	shrunkSigs := map[string]bool{}
+	panicSampled := false
 	known := metacmd.KnownSignatures(c, "C15")
 	for ln := 0; ln < nLogs; ln++ {
 		c.LogInput(map[string]any{"batch": arg, "log_no": ln, "seed": c.Seed, "note": "deterministic: rerun this batch"})
@@ -534,7 +535,10 @@ func worker(c *vf.Ctx, arg string) {
 		if o.panicked != "" {
 			name := strings.SplitN(o.panicked, ":", 2)[0]
 			c.Inconclusive("apply-panic:"+name, 1)
-			c.Sample(map[string]any{"apply_panic": o.panicked, "cmd": p.Items[o.at].Cmd.Desc, "note": "identical panic on all replicas; log abandoned (outside C15)"})
+			if !panicSampled && k < 2 {
+				panicSampled = true
+				c.Sample(map[string]any{"apply_panic": o.panicked, "cmd": p.Items[o.at].Cmd.Desc, "note": "identical panic on all replicas; log abandoned (outside C15)"})
+			}
 			continue
 		}
 		if o.sig != "" {
@@ -568,7 +572,7 @@ func worker(c *vf.Ctx, arg string) {
 				break
 			}
 		}
-		if ln < 1 && k == 0 {
+		if ln < 2 && k < 2 {
 			var names []string
 			for i := 0; i < min(12, len(p.Items)); i++ {
 				names = append(names, p.Items[i].Cmd.Name+" "+p.Items[i].Cmd.Desc)
